@@ -21,7 +21,7 @@ func init() {
 	vfw.Register(&vfw.Check{
 		ID:    "C03",
 		Level: "exploration",
-		Rule: "one case = (valid block of a simulated ledger run, tamper operator): the Byzantine peer alters one derived field (bit flip, +-1, nil/empty, value from another block), the timestamp window, the proposer (ineligible key with a valid VRF proof), or the body (drop/duplicate/swap/append, with and without recomputed commitments) and delivers the copy through the real decode + AddBlock to a victim whose every observable is digested before and after; " +
+		Rule: "one case = (valid block of a simulated ledger run, tamper operator): the Byzantine peer alters one derived field (bit flip, +-1, nil/empty, value from another block), the timestamp window, the proposer (ineligible key with a valid VRF proof; a whole, fully consistent block built by a replica that is not eligible with its own key), or the body (drop/duplicate/swap/append, with and without recomputed commitments) and delivers the copy through the real decode + AddBlock to a victim whose every observable is digested before and after; " +
 			"non-trivial = the tampered encoding differs from the honest one and decodes; distinct by (block hash, operator, argument)",
 		Real:         realLedger,
 		Stub:         stubLedger,
